@@ -111,6 +111,9 @@ public:
     unsigned bytes = words * 4;
     sp = r.chance(5, 6) ? (uint32_t)(words + 16 + r.below(cfg.memWords - words - 64)) : r.u32();
     if (r.chance(1, 8)) sp = cfg.memWords - 4 - (uint32_t)r.below(4);
+    // Corner stack pointers: the argument slots sp+1..sp+3 wrap around 2^32 onto words 0..2, or sit
+    // at the very top of memory.
+    if (r.chance(1, 10)) { static const uint32_t c[] = {0xFFFFFFFFu, 0xFFFFFFFEu, 0xFFFFFFFDu, 0xFFFFFFFCu, 0, 1, 199996, 199997}; sp = c[r.below(8)]; }
     if (cfg.header) {
       byte(0x9, 7);                         // BR to byte 8
       for (int k = 0; k < 3; k++) out.push_back((char)r.below(256));
